@@ -1860,7 +1860,7 @@ def oracle_c01(run, ops, impl):
 
 
 PROPS["C01"] = {
-    "modules": ["NibiruProofs.C01"],
+    "modules": ["NibiruProofs.C01", "NibiruProofs.SDBOrder"],
     "prefix": "C01_",
     "mapranges": True,
     "runs": [{"model": "replicas", "n_quick": 40, "n_thorough": 400, "thorough_seeds": 6, "no_model": True, "per_line": True,
